@@ -185,7 +185,11 @@ def spec_C14(lines, ghost=None):
         elif l.startswith("m- "):
             if cur: cur.pop()
         elif l.startswith("ghost insnoop") and cur: noop.add(cur[-1])
-    if not noop: return bad
+    # reacting accessor calls that must not trigger (`get_mut` that failed, `set_if_neq` that stored nothing): the harness
+    # notes them at the call (`note notrigger <owner> <run> <action>`); the action queued nothing, so its marker bracket
+    # must stay empty
+    quiet = set(l[len("note notrigger "):] for l in lines if l.startswith("note notrigger "))
+    if not noop and not quiet: return bad
     cur = []
     for i, l in enumerate(lines):
         if l.startswith("m+ "): cur.append(l[3:])
@@ -193,6 +197,8 @@ def spec_C14(lines, ghost=None):
             if cur: cur.pop()
         elif l.startswith("applied ") and cur and cur[-1] in noop:
             bad.append("line %d: insertion reaction scheduled although the component was not inserted (action %s): %s" % (i, cur[-1], l))
+        elif l.startswith("applied ") and cur and cur[-1] in quiet:
+            bad.append("line %d: a reaction was scheduled by an accessor call that must not trigger — get_mut failed or set_if_neq stored nothing (action %s): %s" % (i, cur[-1], l))
     return bad
 
 def spec_C17(lines, ghost=None):
@@ -309,11 +315,183 @@ def spec_C15(lines, ghost=None):
             pending = []
     return bad
 
+SCENARIO = None   # text of the scenario being judged (set by the check before the implementation-side automata run)
+
+def _tables(qt_line):
+    """`qt bc0=[s0:2,s1] eev:e1:0=[s2:2]` -> {key: [system names]} (a handle is `sK` or `sK:<strong count>`)."""
+    d = {}
+    for f in qt_line.split(" ")[1:]:
+        if "=[" not in f: continue
+        k, v = f.split("=[", 1)
+        v = v.rstrip("]")
+        d[k] = [h.split(":")[0] for h in v.split(",") if h]
+    return d
+
+def spec_C01(lines, ghost=None):
+    """Dispatch of an event the user sends by direct world access between trees (`top wbroadcast ty pid`,
+    `top wentevent e ty pid`): the registrations live at that instant are the implementation's own table snapshot of the
+    quiescent point just before; every system in that list that exists before and after the tree must run reading this
+    very payload once per entry, and no system outside the list may read it."""
+    if not SCENARIO: return []
+    tops = []
+    sl = SCENARIO.split("\n"); a = 0
+    while a < len(sl):
+        if sl[a].startswith("top "):
+            op = sl[a].split()
+            if len(op) == 3 and op[1] == "acts" and op[2] == "1" and a + 1 < len(sl):
+                act = sl[a + 1].split()
+                # a batch of one action that sends one event: the same as the direct form
+                if len(act) == 3 and act[0] == "broadcast": op = ["top", "wbroadcast", act[1], act[2]]
+                elif len(act) == 4 and act[0] == "entevent": op = ["top", "wentevent", act[1], act[2], act[3]]
+                elif len(act) == 4 and act[0] in ("mutate", "insert"): op = ["top", "w" + act[0], act[1], act[2]]
+            tops.append(op)
+        a += 1
+    bad = []
+    qt = None; qa = None; qc = None
+    i = 0; n = len(lines)
+    while i < n:
+        l = lines[i]
+        if l.startswith("qt"): qt = l
+        elif l.startswith("qa"): qa = l
+        elif l.startswith("qc"): qc = l
+        elif l.startswith("top "):
+            t = tok(l)
+            try: k = int(t[1])
+            except ValueError: k = -1
+            op = tops[k] if 0 <= k < len(tops) else None
+            if op and qt is not None and qa is not None and len(op) >= 2 and op[1] in ("wbroadcast", "wentevent", "wmutate", "winsert"):
+                tb = _tables(qt)
+                if op[1] == "wbroadcast" and len(op) == 4:
+                    ty, pid = op[2], op[3]; expect = list(tb.get("bc" + ty, [])); field = "bc"; want = pid; tgt = None
+                elif op[1] == "wentevent" and len(op) == 5:
+                    tgt, ty, pid = op[2], op[3], op[4]
+                    expect = list(tb.get("eev:%s:%s" % (tgt, ty), [])) + list(tb.get("anyev" + ty, [])); field = "ev"; want = "%s:%s" % (tgt, pid)
+                    # a target that does not exist (any more): C18 territory, no claim here
+                    bb = qa.split(" ")
+                    try:
+                        kk = int(tgt[1:]); bits = bb[1] if tgt[0] == "e" else (bb[2] if len(bb) > 2 else "")
+                        if not (kk < len(bits) and bits[kk] == "1"): expect = None
+                    except (ValueError, IndexError): expect = None
+                elif op[1] in ("wmutate", "winsert") and len(op) == 4:
+                    # one mutation / insertion of a reactive component (no payload to tell the runs apart: only the lower
+                    # bound is judged); the entity must exist and, for a mutation, carry the component
+                    tgt, ty = op[2], op[3]; pid = "-"
+                    kind = "mut" if op[1] == "wmutate" else "ins"
+                    expect = list(tb.get("e%s:%s:%s" % (kind, tgt, ty), [])) + list(tb.get(kind + ty, [])); field = kind; want = tgt
+                    bb = qa.split(" ")
+                    try:
+                        kk = int(tgt[1:]); eb = bb[1]; sb = bb[2] if len(bb) > 2 else ""
+                        bits = eb if tgt[0] == "e" else sb
+                        if not (kk < len(bits) and bits[kk] == "1"): expect = None
+                        elif kind == "mut":
+                            comps = qc.split(" ", 1)[1].split(",") if qc and " " in qc else []
+                            ci = kk if tgt[0] == "e" else len(eb) + kk
+                            if not (ci < len(comps) and comps[ci].split("/")[int(ty)] != "-"): expect = None
+                    except (ValueError, IndexError): expect = None
+                else: expect = None
+                if expect is not None:
+                    before = qa.split(" ")
+                    j = i + 1; ran = []
+                    while j < n and not lines[j].startswith("qa"):
+                        if lines[j].startswith("body "):
+                            bt = tok(lines[j]); vals = parse_obs(bt[3:]).get(field, "").split(",")
+                            try: idx = int(ty)
+                            except ValueError: idx = -1
+                            # `eK!` = the reader names an entity that no longer exists
+                            if 0 <= idx < len(vals) and vals[idx].rstrip("!") == want: ran.append(bt[1])
+                        j += 1
+                    after = lines[j].split(" ") if j < n else None
+                    def alive(bits, name):
+                        try: kk = int(name[1:])
+                        except ValueError: return False
+                        b = bits[2] if len(bits) > 2 else ""
+                        return kk < len(b) and b[kk] == "1"
+                    if after is not None and not any(x.startswith(("panic", "<", "runaway")) for x in lines[i:j]):
+                        for sname in sorted(set(expect)):
+                            if sname.startswith("s") and alive(before, sname) and alive(after, sname) and ran.count(sname) < expect.count(sname):
+                                bad.append("line %d: %s is registered %d time(s) for this event (table snapshot before the tree) and exists before and after it, but ran %d time(s) reading p%s" % (i, sname, expect.count(sname), ran.count(sname), pid))
+                        for sname in sorted(set(ran)):
+                            if sname not in expect and pid != "-":
+                                bad.append("line %d: %s read p%s although it has no registration for this event in the table snapshot before the tree" % (i, sname, pid))
+        i += 1
+    return bad
+
+def spec_C07(lines, ghost=None):
+    """No leak: a system that was seen registered through a ref-counted handle (`sK:<n>` in a table snapshot — cleanup /
+    revokable mode) and that no registration table lists any more at a quiescent point has lost every clone of its signal
+    (tables and the despawn tracker are the only holders between trees); the next top-level garbage collection (`top gc`,
+    `top frameend`, `top update`) must despawn it."""
+    if not SCENARIO: return []
+    sl = SCENARIO.split("\n")
+    tops = [l.split() for l in sl if l.startswith("top ")]
+    # Systems that can die with a registration still holding a signal, legitimately: named by a despawn of any form, part of a
+    # hierarchy, registered a second time in a ref-counted mode (`with c|r`: two independent signals, the documented hazard
+    # R2), one-off reactors (they despawn themselves). For every other system: dead while a table still lists a ref-counted
+    # handle of it = despawned although one of its triggers is still registered.
+    excl = set()
+    for l in sl:
+        w = l.split()
+        if not w: continue
+        if w[0] == "top": w = w[1:]
+        if not w: continue
+        if w[0] in ("despawn", "despawnrec", "wdespawn", "wdespawnrec", "wsetparent", "sigprepare") or (w[0] == "with" and len(w) > 2 and w[1] in ("c", "r")):
+            excl.update(x for x in w[1:] if re.fullmatch(r"[es]\d+", x))
+    for l in lines:
+        if l.startswith("onces"): excl.update(l.split()[1:])
+    clean = not any(x.startswith(("panic", "<", "runaway")) for x in lines)
+    bad = []; counted = set(); qt = None
+    i = 0; n = len(lines)
+    while i < n:
+        l = lines[i]
+        if l.startswith("qt"):
+            qt = l
+            held = set()
+            for f in l.split(" ")[1:]:
+                if "=[" in f:
+                    for h in f.split("=[", 1)[1].rstrip("]").split(","):
+                        if ":" in h and h.startswith("s"):
+                            counted.add(h.split(":")[0])
+                            if h.split(":")[1] not in ("", "0"): held.add(h.split(":")[0])
+            # the `qa` line of this quiescent point precedes its `qt` line
+            j = i - 1
+            while j >= 0 and not lines[j].startswith("qa") and not lines[j].startswith("top "): j -= 1
+            if clean and j >= 0 and lines[j].startswith("qa"):
+                sb = lines[j].split(" "); sbits = sb[2] if len(sb) > 2 else ""
+                for sname in sorted(held - excl):
+                    try: kk = int(sname[1:])
+                    except ValueError: continue
+                    if kk < len(sbits) and sbits[kk] == "0":
+                        excl.add(sname)   # reported once
+                        bad.append("line %d: %s has been despawned although a registration still holds its signal (nothing in the scenario despawns it)" % (i, sname))
+        elif l.startswith("top ") and qt is not None:
+            t = tok(l)
+            try: k = int(t[1])
+            except ValueError: k = -1
+            op = tops[k] if 0 <= k < len(tops) else None
+            if op and len(op) >= 2 and op[1] in ("gc", "frameend", "update"):
+                listed = set()
+                for f in qt.split(" ")[1:]:
+                    if "=[" in f:
+                        for h in f.split("=[", 1)[1].rstrip("]").split(","):
+                            if h: listed.add(h.split(":")[0])
+                j = i + 1
+                while j < n and not lines[j].startswith("qa"): j += 1
+                if j < n and not any(x.startswith(("panic", "<", "runaway")) for x in lines[i:j]):
+                    sb = lines[j].split(" ")
+                    sbits = sb[2] if len(sb) > 2 else ""
+                    for sname in sorted(counted - listed):
+                        try: kk = int(sname[1:])
+                        except ValueError: continue
+                        if kk < len(sbits) and sbits[kk] == "1":
+                            bad.append("line %d: %s was registered through a ref-counted handle, no table lists it any more, and it survives this garbage collection" % (i, sname))
+        i += 1
+    return bad
+
 def spec_none(lines, ghost=None): return []
 
 SPECS = {
-    "C01": [], "C02": [spec_C02], "C03": [spec_expect], "C04": [spec_C04, spec_expect], "C05": [spec_C05],
-    "C06": [], "C07": [], "C08": [spec_C08], "C09": [spec_C02], "C10": [], "C11": [spec_C11, spec_C02],
+    "C01": [spec_C01], "C02": [spec_C02], "C03": [spec_expect], "C04": [spec_C04, spec_expect], "C05": [spec_C05],
+    "C06": [], "C07": [spec_C07], "C08": [spec_C08], "C09": [spec_C02], "C10": [], "C11": [spec_C11, spec_C02],
     "C12": [spec_C12, spec_expect], "C13": [spec_C13], "C14": [spec_C14], "C15": [spec_C15], "C16": [spec_expect], "C17": [spec_C17],
     "C18": [spec_C05, spec_C14],
 }
